@@ -3,10 +3,12 @@
 EXTENDS PacketRoute, Json, IOUtils
 G == JsonDeserialize(IOEnv.GRAPH)
 NDuts == Len(G.duts)
-VARIABLES d, s
-vars == <<d, s, ep, hold, selh, q, pend, dest, own, wc, oprev, obs>>
+VARIABLES d, s,
+          ph   \* flips on a step that changes nothing else: no step of Next is a stuttering step, so WF_vars(Next)
+               \* cannot be satisfied by leaving a hung state that still has another way out (see Progress*)
+vars == <<d, s, ph, ep, hold, selh, q, pend, dest, own, wc, oprev, obs>>
 C == G.duts[d].cfg
-Init == /\ d \in 1..NDuts /\ s = 0 /\ CInit
+Init == /\ d \in 1..NDuts /\ s = 0 /\ ph = 0 /\ CInit
 Step(iv) ==
   /\ s >= 0
   /\ LET k == ToString(iv) IN
@@ -14,13 +16,14 @@ Step(iv) ==
        THEN LET e == G.duts[d].succ[s + 1][k] IN
             /\ s' = e.d /\ d' = d
             /\ CStep(C, iv, e.o)
+            /\ ph' = IF s' = s /\ cvars' = cvars THEN 1 - ph ELSE 0
        ELSE /\ PrintT(<<"NEED", d, s, iv>>)
-            /\ s' = -1 /\ d' = d /\ UNCHANGED cvars
+            /\ s' = -1 /\ d' = d /\ ph' = 0 /\ UNCHANGED cvars
 Next == \E iv \in Inputs(C) : Step(iv)
 Alias == [d |-> d, s |-> s, ep |-> ep, own |-> own, wc |-> wc, obs |-> obs, iv |-> CHOOSE iv \in Inputs(C) : Step(iv)]
 Spec == Init /\ [][Next]_vars /\ WF_vars(Next)
-(* fair environment: slaves eventually always ready, no master pauses forever inside a packet *)
-Fair == (<>[](obs.allrdy)) /\ (\A i \in 1..MAXN : []<>(obs.act[i]))
+(* fair environment: from some time on all slaves are ready and no master pauses inside a packet *)
+Fair == <>[](obs.fair)
 (* no starvation: every offer is eventually accepted *)
 Served    == Fair => \A i \in 1..MAXN : []<>(obs.nowait[i])
 (* nothing lost: every accepted beat is eventually delivered *)
